@@ -52,6 +52,13 @@ def run(src, program, cls, tags, variant=None, domain=None):
             st.env[n] = iface.new_context(eng, st, 'context')
         elif n == 'path':
             st.env[n] = VStr(fresh('path', t.STR))
+        elif n == 'eager':
+            # the eager twin of a lazy construct: same fields, eager class
+            twin = {'LazyArray': 'Array', 'LazyStruct': 'Struct'}[cls]
+            f = dict(selfv.fields)
+            if twin == 'Array':
+                f['discard'] = VBool(t.FALSE)
+            st.env[n] = VObj(twin, f, ident=fresh('eager', t.INT))
         elif n == 'j':
             st.env[n] = VInt(fresh('j', t.INT))       # an arbitrary index
         elif n in ('tail', 'data0'):
